@@ -30,7 +30,7 @@ type c04Case struct {
 	WantConf bool // reference: an unresolved conflict remains
 }
 
-var twists = []string{"", "", "", "unqualified-op", "cross-rule", "reduce-reduce", "mixed-assoc-level", "mixed-shift-levels", "three-way-cell"}
+var twists = []string{"", "", "", "unqualified-op", "cross-rule", "reduce-reduce", "mixed-assoc-level", "mixed-shift-levels", "three-way-cell", "unqualified-prefix", "unqualified-postfix"}
 
 // drawC04 draws a grammar of any kind (conflict-free, ambiguous, LR(1) but
 // not LALR(1), precedence-resolved, precedence-must-not-help). Returns nil if
@@ -60,6 +60,9 @@ func drawC04(r *rng.R, stats map[string]int, mu *sync.Mutex) *c04Case {
 			if tw != "" {
 				cs.Origin += "/" + tw
 			}
+		}
+		if r.Chance(1, 3) {
+			specgen.RenameSymbols(r, cs.G)
 		}
 		if r.Chance(1, 2) {
 			// declaration order of the rules is part of the input (production
